@@ -191,6 +191,25 @@ Qed.
 Definition same_handle (st st' : cstate) : Prop :=
   pos st' = pos st /\ rbuf st' = rbuf st /\ rerr st' = rerr st /\ cache_on st' = cache_on st.
 
+Lemma write_tracts_specN : forall tl o b, 0 < tl ->
+  forall c j T p T' p',
+  write_tracts tl (N.to_nat c) j T b o p = (T', p') ->
+  0 < c -> p < rlen b -> j * tl <= o + p -> o + p < (j + 1) * tl ->
+  (j + c - 1) * tl < o + rlen b ->
+  o + p' = N.min (o + rlen b) ((j + c) * tl) /\
+  forall q,
+    (q < j \/ j + c <= q -> T' q = T q) /\
+    (j <= q < j + c ->
+       rlen (T' q) = N.max (rlen (T q)) (N.min tl (o + rlen b - q * tl)) /\
+       forall i, rget (T' q) i =
+                 if (i <? tl) && (o + p <=? q * tl + i) && (q * tl + i <? o + rlen b)
+                 then rget b (q * tl + i - o) else rget (T q) i).
+Proof.
+  intros tl o b Htl c j T p T' p' Hw Hc Hp H1 H2 H3.
+  pose proof (write_tracts_spec tl o b Htl (N.to_nat c) j T p T' p' Hw) as S.
+  rewrite N2Nat.id in S. apply S; auto. lia.
+Qed.
+
 Lemma write_at_spec : forall tl st off b r st',
   0 < tl -> wf tl (tracts st) (ntr st) -> cache_ok st -> (0 <= off)%Z -> 0 < rlen b ->
   write_at tl st off b = (r, st') ->
@@ -206,35 +225,47 @@ Proof.
   destruct (tract_of tl o Htl) as (S1 & S2 & _). fold start in S1, S2.
   destruct (ceil_tract tl (o + rlen b) Htl ltac:(lia)) as (E1 & E2 & E3).
   replace ((o + rlen b + tl - 1) / tl) with e in * by (unfold e; f_equal; lia).
-  assert (Hse : start < e) by nia.
+  assert (Hse : start < e).
+  { destruct (N.lt_ge_cases start e) as [|Hge]; auto.
+    assert (e * tl <= start * tl) by (apply N.mul_le_mono_r; lia). lia. }
   assert (Hout : forall q i, q < start \/ e <= q ->
             (i <? tl) && (o <=? q * tl + i) && (q * tl + i <? o + rlen b) = false).
   { intros q i Hq. destruct (N.ltb_spec i tl), (N.leb_spec o (q * tl + i)), (N.ltb_spec (q * tl + i) (o + rlen b));
       cbn [andb]; auto. exfalso. destruct Hq as [Hq|Hq].
     - pose proof (mul_lt_tract tl q start Htl Hq). lia.
     - assert (e * tl <= q * tl) by (apply N.mul_le_mono_r; lia). lia. }
+  assert (Hst : o / tl = start) by reflexivity. assert (Hen : (o + rlen b + tl - 1) / tl = e) by reflexivity.
+  clearbody start e o.
   destruct (N.ltb_spec start n) as [Hsn|Hsn].
   - (* some tracts exist already *)
     destruct (get_tracts st start (N.min e n)) as [[f c] st0] eqn:Hg.
     destruct (get_tracts_spec st start (N.min e n) f c st0 Hc ltac:(lia) Hg) as (_ & _ & G1 & G2 & G3 & G4 & G5 & G6 & G7).
     destruct (write_tracts tl (N.to_nat (N.min e n - start)) start (tracts st0) b o 0) as [T1 wp] eqn:Hw1.
     rewrite G1 in Hw1.
-    destruct (write_tracts_spec tl o b Htl _ _ _ _ _ _ Hw1) as [Hp1 Hq1]; try lia; try nia.
-    rewrite N2Nat.id in Hp1, Hq1. replace (start + (N.min e n - start)) with (N.min e n) in * by lia.
+    assert (Hm1 : (start + (N.min e n - start) - 1) * tl < o + rlen b).
+    { assert ((start + (N.min e n - start) - 1) * tl <= (e - 1) * tl) by (apply N.mul_le_mono_r; lia). lia. }
+    destruct (write_tracts_specN tl o b Htl _ _ _ _ _ _ Hw1) as [Hp1 Hq1]; try lia.
+    replace (start + (N.min e n - start)) with (N.min e n) in * by lia.
     destruct (N.ltb_spec n e) as [Hne|Hne].
     + (* ... and more are created *)
       replace (N.min e n) with n in * by lia.
       replace (N.to_nat (n - n)) with 0%nat in H by lia. cbn [create_empty] in H.
       cbn [tracts set_tracts] in H.
-      assert (Hwp : o + wp = n * tl) by nia.
+      assert (Hn1 : n * tl <= (e - 1) * tl) by (apply N.mul_le_mono_r; lia).
+      assert (Hwp : o + wp = n * tl) by lia.
       destruct (write_tracts tl (N.to_nat (e - n)) n T1 (rdrop wp b) (o + wp) 0) as [T2 cp] eqn:Hw2.
       assert (Hb1 : rlen (rdrop wp b) = rlen b - wp) by apply rlen_rdrop.
-      destruct (write_tracts_spec tl (o + wp) (rdrop wp b) Htl _ _ _ _ _ _ Hw2) as [Hp2 Hq2]; try lia; try nia.
-      rewrite N2Nat.id in Hp2, Hq2. replace (n + (e - n)) with e in * by lia.
+      assert (Hm2 : (n + (e - n) - 1) * tl < o + wp + rlen (rdrop wp b)).
+      { replace (n + (e - n) - 1) with (e - 1) by lia. lia. }
+      destruct (write_tracts_specN tl (o + wp) (rdrop wp b) Htl _ _ _ _ _ _ Hw2) as [Hp2 Hq2]; try lia.
+      replace (n + (e - n)) with e in * by lia.
       inversion H; subst r st'. clear H. cbn [tracts ntr set_tracts].
-      split; [f_equal; f_equal; nia|]. split; [|split; [lia|split]].
-      * intro q. fold o start e.
-        destruct (Hq1 q) as [A1 A2]. destruct (Hq2 q) as [B1 B2].
+      split; [f_equal; lia|]. split; [|split; [lia|split]].
+      * assert (Hwb : o + wp + (rlen b - wp) = o + rlen b) by lia.
+        unfold tract_written. rewrite Hst, Hen.
+        clear Hp1 Hp2 Hm1 Hm2 S1 S2 E1 E2 E3 Hn1 Hw1 Hw2 Hg G1 G2 G3 G4 G5 G6 G7 Hb Hb0 Ho0 Hoff Hc Hwf Hst Hen.
+        intro q.
+        destruct (Hq1 q) as [A1 A2]. destruct (Hq2 q) as [B1 B2]. clear Hq1 Hq2.
         destruct (N.ltb_spec q start).
         { rewrite B1, A1 by lia. split.
           - destruct (N.leb_spec start q), (N.ltb_spec q e); cbn [andb]; try lia; auto.
@@ -245,11 +276,11 @@ Proof.
           - intro i. rewrite A2g. rewrite N.add_0_r. reflexivity. }
         destruct (N.ltb_spec q e).
         { destruct B2 as [B2l B2g]; [lia|]. rewrite A1 in B2l, B2g by lia. split.
-          - rewrite B2l, Hb1. destruct (N.leb_spec start q), (N.ltb_spec q e); cbn [andb]; try lia; auto.
-          - intro i. rewrite B2g, Hb1, rget_rdrop.
-            assert (n * tl <= q * tl) by nia.
-            destruct (N.ltb_spec i tl), (N.leb_spec (o + wp + 0) (q * tl + i)), (N.leb_spec o (q * tl + i)),
-                     (N.ltb_spec (q * tl + i) (o + wp + (rlen b - wp))), (N.ltb_spec (q * tl + i) (o + rlen b));
+          - rewrite B2l, Hb1, Hwb. destruct (N.leb_spec start q), (N.ltb_spec q e); cbn [andb]; try lia; auto.
+          - intro i. rewrite B2g, Hb1, Hwb, rget_rdrop, N.add_0_r.
+            assert (n * tl <= q * tl) by (apply N.mul_le_mono_r; lia).
+            destruct (N.ltb_spec i tl), (N.leb_spec (o + wp) (q * tl + i)), (N.leb_spec o (q * tl + i)),
+                     (N.ltb_spec (q * tl + i) (o + rlen b));
               cbn [andb]; try lia; auto.
             f_equal. lia. }
         { rewrite B1, A1 by lia. split.
@@ -260,8 +291,8 @@ Proof.
     + (* all written tracts exist *)
       replace (N.min e n) with e in * by lia.
       inversion H; subst r st'. clear H. cbn [tracts ntr set_tracts].
-      split; [f_equal; nia|]. split; [|split; [lia|split]].
-      * intro q. fold o start e. destruct (Hq1 q) as [A1 A2].
+      split; [f_equal; lia|]. split; [|split; [lia|split]].
+      * unfold tract_written. rewrite Hst, Hen. intro q. destruct (Hq1 q) as [A1 A2].
         destruct (N.leb_spec start q), (N.ltb_spec q e); cbn [andb].
         { destruct A2 as [A2l A2g]; [lia|]. split; auto. intro i. rewrite A2g, N.add_0_r. reflexivity. }
         { rewrite A1 by lia. split; auto. intro i. rewrite Hout by lia. reflexivity. }
@@ -273,11 +304,13 @@ Proof.
     destruct (N.ltb_spec n e) as [Hne|Hne]; [|lia].
     set (Th := create_empty (N.to_nat (start - n)) n (tracts st)) in *.
     destruct (write_tracts tl (N.to_nat (e - start)) start Th b o 0) as [T2 cp] eqn:Hw2.
-    destruct (write_tracts_spec tl o b Htl _ _ _ _ _ _ Hw2) as [Hp2 Hq2]; try lia; try nia.
-    rewrite N2Nat.id in Hp2, Hq2. replace (start + (e - start)) with e in * by lia.
+    assert (Hm2 : (start + (e - start) - 1) * tl < o + rlen b).
+    { replace (start + (e - start) - 1) with (e - 1) by lia. lia. }
+    destruct (write_tracts_specN tl o b Htl _ _ _ _ _ _ Hw2) as [Hp2 Hq2]; try lia.
+    replace (start + (e - start)) with e in * by lia.
     inversion H; subst r st'. clear H. cbn [tracts ntr set_tracts].
-    split; [f_equal; nia|]. split; [|split; [lia|split]].
-    + intro q. fold o start e. destruct (Hq2 q) as [B1 B2].
+    split; [f_equal; lia|]. split; [|split; [lia|split]].
+    + unfold tract_written. rewrite Hst, Hen. intro q. destruct (Hq2 q) as [B1 B2].
       destruct (create_empty_spec (N.to_nat (start - n)) n (tracts st) q) as [C1 C2]. fold Th in C1, C2.
       destruct (N.leb_spec start q), (N.ltb_spec q e); cbn [andb].
       { destruct B2 as [B2l B2g]; [lia|]. rewrite B2l, C1. split; auto.
